@@ -261,6 +261,14 @@ def reshape_program(rng, tid, sym, kind, dtype="float64"):
                       "entry": rng.choice(["method", "symmray", "autoray"])})
         steps.append({"op": "reshape", "in": [f"r{n}"], "out": [f"b{n}"], "args": {"newshape": shape, "back": True}})
         steps.append(rel("blocks" if kind == "abelian" else "same", "C07.roundtrip", "x", f"b{n}"))
+    # un-merge and insert a new unit axis in ONE request (not a promised round trip: it may be refused, but a returned array
+    # must have the requested axes and the same content)
+    if rank >= 2 and 1 not in shape:
+        for n, t in enumerate(merge_drop_targets(rng, shape)[:2]):
+            if len(t) < len(shape):
+                p = rng.randint(0, len(shape))
+                steps.append({"op": "reshape", "in": ["x"], "out": [f"rm{n}"], "args": {"newshape": t}})
+                steps.append({"op": "reshape", "in": [f"rm{n}"], "out": [f"rmi{n}"], "args": {"newshape": shape[:p] + [1] + shape[p:]}})
     # the same round trips on numbers 2**-40 times smaller (scaling by a power of two is exact): content must not depend
     # on the magnitude of the entries
     tiny = [t for t in merge_drop_targets(rng, shape)][:2]
